@@ -2,7 +2,7 @@ INIT Init
 NEXT Next
 CONSTANTS
   MaxDepth = 6
-  MaxVault = 5
+  MaxVault = 4
 VIEW View
 CONSTRAINT Bound
 INVARIANTS InvPools InvCollateral InvVault InvDisjoint InvNonNeg
